@@ -140,7 +140,8 @@ pub fn run_ops(ops: &[Op], nslots: u8, run_seed: u64, verbose: bool, probe_strea
                                 // Encode alteration variant counts in the probes for the enumerator.
                                 let mut v = Vec::with_capacity(st.len());
                                 for p in 0..st.len() {
-                                    v.push(medium::alt_variants(&st, p) as u8);
+                                    let g = if medium::is_group_start(&st, p) { 0x80 } else { 0 };
+                                    v.push(medium::alt_variants(&st, p) as u8 | g);
                                 }
                                 alt_variants = v;
                                 identifier_count = medium::identifier_count(&st);
@@ -368,6 +369,12 @@ fn enumerate_c11(a: &Args, index: u64, out: &mut impl Write) -> Option<Replay> {
             faults.push(vec![StreamFault { kind: kind.into(), pos, arg: 0 }]);
         }
         let nv = variants.get(pos).copied().unwrap_or(0);
+        if nv & 0x80 != 0 {
+            for kind in ["delgroup", "dupgroup", "swapgroup"] {
+                faults.push(vec![StreamFault { kind: kind.into(), pos, arg: 0 }]);
+            }
+        }
+        let nv = nv & 0x7F;
         for v in 0..nv {
             faults.push(vec![StreamFault { kind: "alt".into(), pos, arg: v as i64 }]);
         }
